@@ -183,11 +183,14 @@ def do_check(prop, tier, seed, specmod):
                     continue
                 f = norm_path(d.get('file', '?'))
                 glmroot = norm_path(os.path.join(REPO, 'glm')) + os.sep
-                if d['tag'] == 'UBSAN' and not f.startswith(glmroot):
+                # the compiler's SIMD intrinsic wrappers (emmintrin.h, avxintrin.h, ...) are always-inline functions: a report located in one
+                # of them is a load/store glm issued through an intrinsic (the monitors call no pointer-taking intrinsic themselves)
+                intrin = d['tag'] == 'UBSAN' and re.search(r'/include/[a-z0-9_]*intrin\.h$', f) is not None
+                if d['tag'] == 'UBSAN' and not f.startswith(glmroot) and not intrin:
                     if f.startswith(norm_path(VERIF) + os.sep):
                         harness_fail.append('sanitizer report in harness code: ' + l[:300])
                     continue  # libstdc++ etc: not glm
-                rel = f[len(glmroot):] if f.startswith(glmroot) else 'asan'
+                rel = ('simd-intrinsic:' + os.path.basename(f)) if intrin else f[len(glmroot):] if f.startswith(glmroot) else 'asan'
                 cls = ('ubsan:%s:%s' % (d.get('kind', '?'), rel)) if d['tag'] == 'UBSAN' else 'asan:memory-error'
                 viols.append({'op': d['op'], 'class': cls, 'count': 1, 'unit': u,
                               'witnesses': [{'in_hex': d['in_hex'], 'in': '', 'got': '%s at glm/%s:%s %s' % (d.get('kind'), rel, d.get('line'), d.get('msg', '')), 'want': 'no sanitizer report'}]})
